@@ -9,7 +9,9 @@
 (* saved at that point and opened again (ra, rb).  v = "reopen": the       *)
 (* document object is replaced by one loaded from the last saved file;     *)
 (* v = "touch-write" / "touch-merge": Table.write on the cells along the   *)
-(* line / Table.merge_cells elsewhere in the table.                        *)
+(* line / Table.merge_cells elsewhere in the table; "touch-merge-over" /   *)
+(* "touch-merge-outer" [o, len]: merge_cells of a range straddling the     *)
+(* line at those positions / with the line as its outer edge there.        *)
 (* Only Level A is judged here (edge = last writer wins), so the trace may *)
 (* start from any line content (init).                                     *)
 (***************************************************************************)
@@ -23,10 +25,15 @@ Evt == Traces[tid].ev[l]
 Same(view, e) == \A i \in 1..N : view[i] = "edge" \/ view[i] = e[i]
 \* a recorded reopen: the document object is replaced by one loaded from the last saved file - nothing that Level A speaks of changes
 \* (the guards of Borders!Reopen are about the generator's bookkeeping, which a trace starting from a preloaded line does not have)
-TReopen == UNCHANGED <<edge, runs, openv, maxOrder>> /\ hist' = Append(hist, [o |-> 0, len |-> 0, v |-> "reopen"])
+TReopen == UNCHANGED <<edge, runs, openv, maxOrder, hidden>> /\ hist' = Append(hist, [o |-> 0, len |-> 0, v |-> "reopen"])
 \* a recorded touch (write to the cells along the line / merge_cells elsewhere): no border changes
-TTouch == UNCHANGED <<edge, runs, openv, maxOrder>> /\ hist' = Append(hist, [o |-> 0, len |-> 0, v |-> Evt.v])
-Act == IF Evt.v = "reopen" THEN TReopen ELSE IF Evt.v \in Touches THEN TTouch ELSE Stroke(Evt.o, Evt.len, Evt.v)
+TTouch == UNCHANGED <<edge, runs, openv, maxOrder, hidden>> /\ hist' = Append(hist, [o |-> 0, len |-> 0, v |-> Evt.v])
+\* a recorded merge on the line: straddling it (those edges are hidden from now on) or with the line as its outer edge (nothing changes)
+TOver == /\ hidden' = hidden \cup Span(Evt.o, Evt.len) /\ edge' = [i \in 1..N |-> IF i \in Span(Evt.o, Evt.len) THEN NoBorder ELSE edge[i]]
+         /\ UNCHANGED <<runs, openv, maxOrder>> /\ hist' = Append(hist, [o |-> Evt.o, len |-> Evt.len, v |-> Evt.v])
+TOuter == UNCHANGED <<edge, runs, openv, maxOrder, hidden>> /\ hist' = Append(hist, [o |-> Evt.o, len |-> Evt.len, v |-> Evt.v])
+Act == IF Evt.v = "reopen" THEN TReopen ELSE IF Evt.v \in Touches THEN TTouch
+       ELSE IF Evt.v = "touch-merge-over" THEN TOver ELSE IF Evt.v = "touch-merge-outer" THEN TOuter ELSE Stroke(Evt.o, Evt.len, Evt.v)
 Matches == Act /\ Same(Evt.oa, edge') /\ Same(Evt.ob, edge') /\ Same(Evt.ra, edge') /\ Same(Evt.rb, edge')
 Clause == IF ~ENABLED Act THEN "not-enabled"
           ELSE IF ~ENABLED (Act /\ Same(Evt.oa, edge')) THEN "open.own-side"
@@ -35,7 +42,7 @@ Clause == IF ~ENABLED Act THEN "not-enabled"
           ELSE "reopened.neighbour-side"
 \* init: what the line showed before the first recorded call (all "none" on a new table; the existing borders of a fixture table)
 TInit == /\ tid \in 1..Len(Traces) /\ l = 1
-         /\ edge = [i \in 1..N |-> Traces[tid].init[i]] /\ runs = <<>> /\ maxOrder = 1 /\ hist = <<>>
+         /\ edge = [i \in 1..N |-> Traces[tid].init[i]] /\ runs = <<>> /\ maxOrder = 1 /\ hist = <<>> /\ hidden = {}
          /\ openv = [i \in 1..N |-> [value |-> Traces[tid].init[i], order |-> 0]]
 Step == l <= NEv /\ Matches /\ l' = l + 1 /\ UNCHANGED tid
 Reject == /\ l <= NEv /\ ~ENABLED Matches /\ PrintT(<<"REJECT", tid, l, "stroke", Clause>>) /\ l' = RejBase + l /\ UNCHANGED <<vars, tid>>
